@@ -56,7 +56,10 @@ SOURCES = {
     'mix': (lambda rng, fam: gen_mix.build(rng, fam),
             ['univ+rect', 'cells+hex']),
     'c04': (None, ['surf-tr|generic', 'trcl-star|generic',
-                   'trcl-inline12|quarter', 'implicit|generic']),
+                   'trcl-inline12|quarter', 'implicit|generic',
+                   # abbreviated inline matrices: the J / nJ / nM / I atoms
+                   # between the parentheses are spelled in either case
+                   'trcl-inline-jumps|generic', 'trcl-inline-jumps|quarter']),
     'c10': (None, ['atom-massrho', 'keywords', 'exponents', 'atom-atomrho']),
     'c12': (None, ['data-n', 'shorthand-r', 'data-np-two-cards',
                    'cell-cards-np']),
